@@ -67,15 +67,15 @@ type c05Scenario struct {
 	kind  string
 	input string // generator: "fasta", "fastq", "pairs", "multiplex", "pcr", "multifile", "fasta-sb", "fastq-sb", "fasta-sample", "uniq", "bigannot"
 	extra []c05Out
-	gz    bool // the outputs are compressed (-Z): gunzipped before any comparison
-	light bool // fewer configurations (scenario added for a second option set of an already covered command)
-	nrec  int       // number of records of the generated inputs (0: 24 quick / 60 thorough)
-	trail string    // bytes the command prints on stdout after its last record: checked and removed
+	gz    bool   // the outputs are compressed (-Z): gunzipped before any comparison
+	light bool   // fewer configurations (scenario added for a second option set of an already covered command)
+	nrec  int    // number of records of the generated inputs (0: 24 quick / 60 thorough)
+	trail string // bytes the command prints on stdout after its last record: checked and removed
 	// what the command prints for an EMPTY input (obitag ends with fmt.Println(""): with an input the writer has closed
 	// stdout by then and nothing more is printed, without input the line is printed): checked and removed
 	emptyOut string
-	cfgs  []c05Cfg  // the parallelism configurations of the scenario (nil: c05Configs / c05LightConfigs)
-	stress int      // number of records of the stress runs (0: 4000)
+	cfgs     []c05Cfg // the parallelism configurations of the scenario (nil: c05Configs / c05LightConfigs)
+	stress   int      // number of records of the stress runs (0: 4000)
 }
 
 var c05Scenarios = []c05Scenario{
@@ -975,6 +975,14 @@ func (c05) Gen(rng *rand.Rand, tier string, emit func(string)) {
 	}
 	var lines []string
 	add := func(l string) { lines = append(lines, l) }
+	// corpus: the input on which obiclean's output ORDER changed from run to run before `SortBatches().Load()`
+	// (notes/patches/C05-obiclean-load-order): batches of 3 records parsed by several workers, compared with each
+	// other and, record by record in output order, with the C13 model
+	if sc := c05Scenario_("clean-head"); sc != nil {
+		for rep, cfg := range []c05Cfg{{cpu: 2, batch: 3, gmp: 4}, {cpu: 8, batch: 3, gmp: 8}, {cpu: 0, batch: 3, gmp: 1}, {cpu: 8, batch: 3, gmp: 8}} {
+			add(c05Line("run", sc, 241108085, 40, cfg, rep))
+		}
+	}
 	for i := range c05Scenarios {
 		sc := &c05Scenarios[i]
 		switch sc.input {
@@ -1312,6 +1320,9 @@ func (c05) Exec(c string) (string, []Fail) {
 	}
 	if p.cfg.cpu == 0 {
 		stat("force-one-cpu")
+	}
+	if p.cfg.env != "" {
+		stat("env:" + p.cfg.env)
 	}
 	if sc.gz {
 		stat("compressed-output")
